@@ -18,7 +18,7 @@ from . import pristine
 MEMO = {}
 ORACLE_STATS = {"r1_miss": 0, "r1_hit": 0, "r1_unrebuildable": 0}
 RUN_TIMEOUT_S = int(os.environ.get("HTSIM_RUN_TIMEOUT", "300"))
-MEM_LIMIT = int(os.environ.get("HTSIM_MEM_LIMIT", str(6 << 30)))
+MEM_LIMIT = int(os.environ.get("HTSIM_MEM_LIMIT", str(4 << 30)))
 
 
 class WorkerError(Exception):
